@@ -43,7 +43,7 @@ FLOORS = {
                                                "maps.round_trips_checked": 30000,
                                                "c07.specs_with_path_and_reverse": 5},
               "seen": {"maps.rule_form": 4}},
-    "thorough": {"nontrivial": 6000, "counters": {"objects.sizes_compared": 50000, "objects.objects_compared": 1500000,
+    "thorough": {"nontrivial": 4500, "counters": {"objects.sizes_compared": 50000, "objects.objects_compared": 1500000,
                                                    "maps.round_trips_checked": 800000,
                                                    "c07.specs_with_path_and_reverse": 100},
                  "seen": {"maps.rule_form": 4}},
